@@ -199,11 +199,17 @@ func RemoveAll(repo repository.ClockedRepo) error {
 		return err
 	}
 	for remote := range remotes {
-		refs, err := repo.ListRefs(fmt.Sprintf(identityRemoteRefPattern, remote))
+		prefix := fmt.Sprintf(identityRemoteRefPattern, remote)
+		refs, err := repo.ListRefs(prefix)
 		if err != nil {
 			return err
 		}
 		for _, ref := range refs {
+			// the tracking ref of an ordinary branch named "identities/..." lives under
+			// the same prefix: only what is named after an identity id is ours
+			if entity.Id(strings.TrimPrefix(ref, prefix)).Validate() != nil {
+				continue
+			}
 			err = repo.RemoveRef(ref)
 			if err != nil {
 				return err
